@@ -706,6 +706,142 @@ fn main() {
         return;
     }
 
+    if mode == "contexts" {
+        // What a context reads is the file at the path at the moment it was opened, through a
+        // mapping of its own; neither other contexts of the process nor the way the open had to be
+        // done may change what now() answers. Scenarios: (A) the segment file is replaced by a new
+        // one (new inode, as a cleaned /run directory gives) while an older context is alive, then
+        // a new context is opened on the same path; (B) the same with the older context closed
+        // first; (C) mmap() fails at the moment of the open (ENOMEM / ENODEV / EAGAIN): either the
+        // open fails, or the context answers like any other.
+        clock::fixed::install();
+        BLUR_NS.store(arg_u64(&args, "blur", 1000) as i64, std::sync::atomic::Ordering::Relaxed);
+        let dir = PathBuf::from(format!("/dev/shm/cbverif-contexts.{}", std::process::id()));
+        std::fs::create_dir_all(&dir).unwrap();
+        let mut rng = Rng::new(seed ^ 0xC0_17E5);
+        let mut violations: Vec<Value> = Vec::new();
+        let mut counts: BTreeMap<String, u64> = BTreeMap::new();
+        let mut evaluations = 0u64;
+        let to_ceb = |v: &Vector| ClockErrorBound::new(
+            libc::timespec { tv_sec: v.as_of.0, tv_nsec: v.as_of.1 },
+            libc::timespec { tv_sec: v.void_after.0, tv_nsec: v.void_after.1 },
+            v.bound, v.drift, 0, status_of(v.status));
+        let ask = |client: &mut ClockBoundClient, v: &Vector| -> Outcome {
+            clock::fixed::set(v.real, v.mono);
+            vworld::meter::begin_call();
+            let answer = catch_unwind(AssertUnwindSafe(|| client.now()));
+            if let Some(msg) = vworld::meter::end_call() {
+                return Outcome::Panic(format!("unbounded work, no return: {}", msg));
+            }
+            match answer {
+                Ok(Ok(r)) => Outcome::Ok { earliest: (r.earliest.tv_sec(), r.earliest.tv_nsec()), latest: (r.latest.tv_sec(), r.latest.tv_nsec()), status: status_num(r.clock_status) },
+                Ok(Err(e)) => Outcome::Err { kind: kind_name(&e.kind).to_string(), errno: e.errno.0, detail: e.detail.clone() },
+                Err(_) => Outcome::Panic("panic".into()),
+            }
+        };
+        let mut judge = |what: &str, v: &Vector, o: &Outcome, violations: &mut Vec<Value>, evaluations: &mut u64| {
+            *evaluations += 1;
+            for (p, sig, text) in oracle(v, o) {
+                if violations.len() < 12 {
+                    let rp = format!("{}/{}-contexts-{}-{}.json", replay_dir, prop, seed, violations.len());
+                    vworld::write_json(&rp, &json!({"property": prop, "engine": "clientsim-contexts", "scenario": what, "vector": v.to_json(), "outcome": o.line(), "sig": sig, "detail": text, "judged_as": p}));
+                    violations.push(json!({"sig": format!("{}-{}", what.split(':').next().unwrap_or("ctx"), sig), "detail": format!("[{}] {} [vector {}] answered {}", what, text, v.line(), o.line()), "replay": rp}));
+                }
+            }
+        };
+        for it in 0..count {
+            let path = dir.join(format!("shm{}", it % 4));
+            let spath = path.to_str().unwrap().to_string();
+            let _ = std::fs::remove_file(&path);
+            let scen = it % 3;
+            let v1 = generate(&prop, &mut rng).remove(0);
+            let v2 = generate(&prop, &mut rng).remove(0);
+            let v3 = generate(&prop, &mut rng).remove(0);
+            if scen < 2 {
+                let mut w1 = ShmWriter::new(&path).expect("ShmWriter::new");
+                w1.write(&to_ceb(&v1));
+                let mut a = match ClockBoundClient::new_with_path(&spath) {
+                    Ok(c) => Some(c),
+                    Err(_) => None,
+                };
+                if let Some(c) = a.as_mut() {
+                    let o = ask(c, &v1);
+                    judge("first-context", &v1, &o, &mut violations, &mut evaluations);
+                }
+                if scen == 1 {
+                    a = None;
+                }
+                // a new daemon in a cleaned directory: new file, new inode, same path
+                let tmp = dir.join(format!("shm{}.new", it % 4));
+                let _ = std::fs::remove_file(&tmp);
+                let mut w2 = ShmWriter::new(&tmp).expect("ShmWriter::new");
+                w2.write(&to_ceb(&v2));
+                std::fs::rename(&tmp, &path).unwrap();
+                let what = if scen == 0 { "replaced-file-older-context-alive: a new context opened on the same path after the segment file was replaced (new inode)" } else { "replaced-file-older-context-closed: a new context opened on the same path after the segment file was replaced (new inode)" };
+                match ClockBoundClient::new_with_path(&spath) {
+                    Ok(mut b) => {
+                        let o = ask(&mut b, &v2);
+                        judge(what, &v2, &o, &mut violations, &mut evaluations);
+                        w2.write(&to_ceb(&v3));
+                        let o = ask(&mut b, &v3);
+                        judge(what, &v3, &o, &mut violations, &mut evaluations);
+                        *counts.entry(format!("scenario{}-judged", scen)).or_insert(0) += 1;
+                    }
+                    Err(e) => {
+                        evaluations += 1;
+                        if violations.len() < 12 {
+                            violations.push(json!({"sig": "replaced-file-open-failed", "detail": format!("[{}] the open failed: {} {}", what, kind_name(&e.kind), e.errno.0), "replay": ""}));
+                        }
+                    }
+                }
+                drop(a);
+                drop(w1);
+                drop(w2);
+                vworld::close_rdwr_fds_under(&dir);
+            } else {
+                let mut w = ShmWriter::new(&path).expect("ShmWriter::new");
+                w.write(&to_ceb(&v1));
+                let e = *rng.pick(&[libc::ENOMEM, libc::ENODEV, libc::EAGAIN, libc::EACCES]);
+                vworld::meter::fail_mmap(e);
+                let r = catch_unwind(AssertUnwindSafe(|| ClockBoundClient::new_with_path(&spath)));
+                vworld::meter::fail_mmap(0);
+                let what = "mmap-failed-at-open: mmap() of the segment failed when the context was opened, a context was handed out all the same";
+                match r {
+                    Ok(Ok(mut c)) => {
+                        *counts.entry("mmap-failed-context-handed-out".into()).or_insert(0) += 1;
+                        for v in [&v1, &v2, &v3] {
+                            w.write(&to_ceb(v));
+                            let o = ask(&mut c, v);
+                            judge(what, v, &o, &mut violations, &mut evaluations);
+                        }
+                    }
+                    Ok(Err(err)) => {
+                        evaluations += 1;
+                        *counts.entry(format!("mmap-failed-open-refused-{}-{}", kind_name(&err.kind), err.errno.0)).or_insert(0) += 1;
+                        if err.errno.0 != e && violations.len() < 12 {
+                            violations.push(json!({"sig": "mmap-failed-wrong-errno", "detail": format!("mmap() failed with errno {} at open, the error reports {} {} {:?}", e, kind_name(&err.kind), err.errno.0, err.detail), "replay": ""}));
+                        }
+                    }
+                    Err(_) => {
+                        evaluations += 1;
+                        violations.push(json!({"sig": "mmap-failed-panic", "detail": format!("mmap() failed with errno {} at open and the open panicked", e), "replay": ""}));
+                    }
+                }
+                drop(w);
+                vworld::close_rdwr_fds_under(&dir);
+            }
+        }
+        let _ = std::fs::remove_dir_all(&dir);
+        let out = json!({"evaluations": evaluations, "counts": counts, "violations": violations, "mmap_failures_injected": vworld::meter::MMAP_FAILURES_INJECTED.load(std::sync::atomic::Ordering::Relaxed)});
+        let outp = arg_str(&args, "out", "");
+        if outp.is_empty() {
+            println!("{}", vworld::serde_json::to_string_pretty(&out).unwrap());
+        } else {
+            vworld::write_json(&outp, &out);
+        }
+        return;
+    }
+
     if mode == "repair" {
         // Daemon start-up and first publication over pre-existing files; what new clients then read.
         use clock_bound_shm::ShmReader;
